@@ -468,6 +468,8 @@ def apply_action(vc, act, rng):
     if do == "kill":
         sel = act.get("who", "any")
         cands = _alive(vc)
+        if sel == "event_actor":
+            cands = [a for a in cands if any(p.pid == act.get("_pid") for p in a.stack)]
         if sel == "node":
             cands = [a for a in cands if a.stack[0].kind == "node"]
         elif sel == "submitter":
@@ -522,8 +524,24 @@ def run_plan(sc, seed, plan=None):
         vc.submit(local=bool(plan.get("local")))
         # user commands and faults only make sense once the submission exists on disk
         vc.run(until=lambda: vc.trace and any(e["k"] == "create" for e in vc.trace[-12:]))
-        for act in sorted(plan.get("actions", []), key=lambda a: a["at"]):
-            vc.run(until=lambda: vc.steps >= act["at"])
+        for act in sorted(plan.get("actions", []), key=lambda a: a.get("at", 0)):
+            if act.get("when"):
+                w = act["when"]
+                n0 = len(vc.trace)
+
+                def hit():
+                    cnt = 0
+                    for ev in vc.trace[n0:]:
+                        if ev["k"] == w["k"] and str(ev.get("lock", "")).startswith(w.get("lock_startswith", "")) \
+                                and (w.get("node") is None or (ev.get("node") is not None) == w["node"]):
+                            cnt += 1
+                            if cnt >= w.get("n", 1):
+                                act["_pid"] = ev["p"]
+                                return True
+                    return False
+                vc.run(until=hit)
+            else:
+                vc.run(until=lambda: vc.steps >= act["at"])
             lab = apply_action(vc, act, rng)
             applied.append(lab)
             vc.trace.append({"k": "action", "p": 0, "do": act["do"], "label": lab})
